@@ -62,6 +62,7 @@ type callSpec struct {
 	C    string          `json:"c"` // Go type name of the contract
 	M    string          `json:"m"`
 	Role int             `json:"role"`
+	As   string          `json:"as,omitempty"` // sender placeholder overriding the role's default account (worlds with further appchains)
 	Args [][]interface{} `json:"args"`
 }
 
@@ -70,6 +71,7 @@ type histIn struct {
 	Audit   bool       `json:"audit"`
 	Zero    bool       `json:"zero"` // service_mgr proposals use the ZeroPermission strategy
 	ZSwitch bool       `json:"zswitch"` // proposals of several modules are opened under the default strategy, then governance switches every module to ZeroPermission
+	Sep     bool       `json:"sep"` // further appchains whose ids contain separator characters: "org" ($ADMO), "org:chainB" ($ADMS), "org-chainB" ($ADMT), "org,chainB" ($ADMU), each of the last three with a service
 	Surface bool       `json:"surface"`
 	Calls   []callSpec `json:"calls"`
 }
@@ -245,6 +247,9 @@ func buildWorld(in *histIn) (w *world, err error) {
 	}
 	if in.ZSwitch && !in.Zero {
 		w.zswitch()
+	}
+	if in.Sep && !in.Zero {
+		w.sep()
 	}
 	return w, nil
 }
@@ -691,6 +696,37 @@ func (w *world) cacheState() string {
 
 var roleNames = []string{"$OUT", "$ADMB", "$GOV1", "$NODE", "$ADMA"}
 
+// sep: appchain ids are free-form (only "" is refused), several places split ids at ':' '-' ','.  Registered through
+// the real flow: "org" ($ADMO) and three appchains whose id starts with "org" + a separator, each with one service.
+var sepChains = []struct{ id, adm, svc string }{{"org", "$ADMO", ""}, {"org:chainB", "$ADMS", "svc2"}, {"org-chainB", "$ADMT", "svc-2"}, {"org,chainB", "$ADMU", "svc2"}}
+
+func (w *world) sep() {
+	am := constant.AppchainMgrContractAddr.Address()
+	sm := constant.ServiceMgrContractAddr.Address()
+	for i, ch := range sepChains {
+		w.keys[ch.adm] = hx.Key(70 + i)
+		w.names[strings.ToLower(strings.TrimPrefix(w.addr(ch.adm), "0x"))] = ch.adm
+	}
+	for _, ch := range sepChains {
+		ret := w.must("RegisterAppchain "+ch.id, w.exec(ch.adm, am, "RegisterAppchain",
+			pb.String(ch.id), pb.String("name-"+ch.id), pb.Bytes([]byte("pubkey")), pb.String("ETH"), pb.Bytes([]byte("trustroot")),
+			pb.String("0x857133c5C69e6Ce66F7AD46F200B9B3573e77582"), pb.String("desc"), pb.String(validator.HappyRuleAddr), pb.String(""),
+			pb.String(w.addr(ch.adm)), pb.String("reason")))
+		w.decide(proposalOf(ret), true)
+		if ch.svc == "" {
+			continue
+		}
+		ret = w.must("RegisterService "+ch.id+":"+ch.svc, w.exec(ch.adm, sm, "RegisterService",
+			pb.String(ch.id), pb.String(ch.svc), pb.String("name-"+ch.id+"-"+ch.svc), pb.String("CallContract"), pb.String("intro"), pb.Uint64(1),
+			pb.String(""), pb.String("details"), pb.String("reason")))
+		w.decide(proposalOf(ret), true)
+		ok, data := w.c.View(sm, "GetServiceInfo", pb.String(ch.id+":"+ch.svc))
+		if !ok || !strings.Contains(string(data), `"available"`) {
+			panic("service " + ch.id + ":" + ch.svc + " not available after its registration: " + string(data))
+		}
+	}
+}
+
 func (w *world) doCall(cs *callSpec) callOut {
 	out := callOut{}
 	addr, ok := w.typeOf[cs.C]
@@ -705,6 +741,14 @@ func (w *world) doCall(cs *callSpec) callOut {
 		return out
 	}
 	w.self = roleNames[cs.Role]
+	if cs.As != "" {
+		if _, ok := w.keys[cs.As]; !ok {
+			out.NoRun = true
+			out.Err = "bad_sender"
+			return out
+		}
+		w.self = cs.As
+	}
 	var args []*pb.Arg
 	for _, a := range cs.Args {
 		pa, err := w.buildArg(a)
@@ -715,7 +759,7 @@ func (w *world) doCall(cs *callSpec) callOut {
 		}
 		args = append(args, pa)
 	}
-	sender := roleNames[cs.Role]
+	sender := w.self
 	before := w.dump()
 	mem0, cache0 := w.memState(), w.cacheState()
 	r := w.exec(sender, types.NewAddressByStr(addr), cs.M, args...)
